@@ -365,6 +365,62 @@ def check_fetcher_level(ck):
     ck.obligation("correspondence:fetcher-level-read-committed-runs", True, f"{len(scs)} runs, {bad} monitor violations")
 
 
+def check_emptied_control_batches(ck):
+    """'the consumer's position still advances past everything it filtered so that it never stalls': a control batch
+    whose marker record the log cleaner removed (empty batch header kept) carries no marker; consumption goes on past
+    it at both isolation levels.  Monitors only (the Coq log model has one record per control batch)."""
+    rng = random.Random(ck.seed * 31 + 808)
+    cases = []
+    for _ in range(ck.n(60, 600)):
+        ops = []
+        pids = [5, 7, 9]
+        open_ = []
+        for _k in range(rng.randrange(3, 10)):
+            r = rng.random()
+            if open_ and r < 0.4:
+                pid = open_.pop(rng.randrange(len(open_)))
+                ops.append(["M", pid, rng.random() < 0.6])
+            elif r < 0.75:
+                pid = rng.choice(pids)
+                if pid not in open_:
+                    open_.append(pid)
+                n = rng.randrange(1, 4)
+                ops.append(["D", pid, 1, n, [[d, 100 * len(ops) + d] for d in range(n)]])
+            else:
+                n = rng.randrange(1, 3)
+                ops.append(["D", -1, 0, n, [[d, 100 * len(ops) + d] for d in range(n)]])
+        for pid in open_:
+            ops.append(["M", pid, rng.random() < 0.6])
+        if not any(o[0] == "M" for o in ops):
+            continue
+        nm = sum(1 for o in ops if o[0] == "M")
+        cases.append({"ops": ops, "empty": rng.sample(range(nm), rng.randrange(1, nm + 1)), "iso": rng.choice(["read_uncommitted", "read_committed", "read_committed"]),
+                      "f": 0})
+    res = run_impl("c08_impl.py", {"emptied": cases}, timeout=600, env={"AIOKAFKA_NO_EXTENSIONS": "1"})["emptied"]
+    bad = 0
+    for c, r in zip(cases, res):
+        ck.count(key=("emptied", json.dumps(c["ops"]), tuple(c["empty"]), c["iso"]), nontrivial=True)
+        for mode, v in r["via"].items():
+            offs = [x[0] for x in v["out"]]
+            what = None
+            if v["exc"]:
+                what = f"consumption raised {v['exc']}"
+            elif v["pos"] != r["end"]:
+                what = f"the position stopped at {v['pos']}, the log ends at {r['end']}"
+            elif any(o in r["ctl"] for o in offs) or offs != sorted(set(offs)):
+                what = f"delivered offsets {offs} contain a control batch offset or are not increasing"
+            if what:
+                bad += 1
+                if bad <= 3:
+                    ck.violation(f"log with control batches emptied by the cleaner (isolation level {c['iso']}, "
+                                 f"{'getone' if mode == '0' else 'getall'}): {what}",
+                                 {"kind": "emptied-control-batch", "case": c, "observed": v},
+                                 signature=f"emptied-control-batch:{what.split(' ')[0]}")
+                break
+    ck.extra["emptied_control_batch_cases"] = len(cases)
+    ck.log(f"emptied control batches: {len(cases)} logs, {bad} stalled or failed")
+
+
 def run(ck: Check):
     rng = ck.rng
     ck.trusted += [
@@ -397,6 +453,7 @@ def run(ck: Check):
     pool = cf.ThreadPoolExecutor(max_workers=2)
     fut_proofs = pool.submit(proofs)
     check_fetcher_level(ck)
+    check_emptied_control_batches(ck)
 
     # ---- inputs
     n_logs = ck.n(500, 20000)
